@@ -335,7 +335,33 @@ func randomStrings(c *vh.Ctx, n int) []string {
 	for len(res) < n {
 		k := 1 + c.Rng.Intn(9)
 		var b strings.Builder
-		switch c.Rng.Intn(4) {
+		switch c.Rng.Intn(5) {
+		case 4: // long digit runs (the correctly rounded value of 16-40 significant digits; seeded C05-p2: a digit-accumulating
+			// fast path is 1 ulp off for a fifth of the 17-digit integers), plain or with a point / exponent / decorations
+			b.WriteString([]string{"", "", "", " ", "+", "-"}[c.Rng.Intn(6)])
+			nd := 14 + c.Rng.Intn(8)
+			if c.Rng.Intn(4) == 0 {
+				nd = 1 + c.Rng.Intn(40)
+			}
+			dot := -1
+			if c.Rng.Intn(3) == 0 {
+				dot = c.Rng.Intn(nd + 1)
+			}
+			for i := 0; i < nd; i++ {
+				if i == dot {
+					b.WriteByte('.')
+				}
+				if i == 0 && c.Rng.Intn(4) > 0 {
+					b.WriteByte("123456789"[c.Rng.Intn(9)])
+				} else {
+					b.WriteByte("0123456789"[c.Rng.Intn(10)])
+				}
+			}
+			if c.Rng.Intn(4) == 0 {
+				b.WriteString([]string{"e", "E", "e+", "e-"}[c.Rng.Intn(4)])
+				b.WriteString(strconv.Itoa(c.Rng.Intn(40)))
+			}
+			b.WriteString([]string{"", "", "", "", " ", "x", "\n"}[c.Rng.Intn(7)])
 		case 0: // grammar-directed: a well-formed number with decorations, then maybe junk
 			b.WriteString([]string{"", " ", "\t ", "\n"}[c.Rng.Intn(4)])
 			b.WriteString([]string{"", "", "+", "-"}[c.Rng.Intn(4)])
